@@ -210,7 +210,9 @@ for _nm in _C18_ALL:
     _tn = sorted(set(_t) & {0, 3}) or [_t[-1]]
     _props = 'C18'
     _e = _variant(_b, '_u', _props, ns_q=_q, ns_t=_tn, features='--features unstable', untagged='C18')
-    if _b.get('name', '').endswith('_w'):
+    if _b.get('name', '').endswith('_w') or _b.get('expect_panic') or _b.get('untagged') == []:
+        # watched variants, must-panic harnesses (their untagged failures are the EXPECTED panics) and every base entry
+        # that attributes nothing to untagged failures keep doing so under `unstable`
         _e['untagged'] = []
     _extra.append(_e)
 # modular variants: the caller is verified against the CONTRACT of add_mod / sub_mod (stub_verified), not their bodies
